@@ -516,6 +516,39 @@ class Tally:
                                    "strace_available": clilib.strace_available()}}
 
 
+def stdin_leg(lf, tally):
+    """`stylua --check -`: the same truth through stdin (with and without --stdin-filepath, every
+    output format): exit 0 / 1 / 2 by the class of the text, and nothing written anywhere."""
+    cfg_ = clilib.cfg()
+    texts = {"F": lf.format(clilib.lua_unformatted(3), cfg_)[1].encode(), "U": clilib.lua_unformatted(4).encode(),
+             "U-blank": b"\n\n  \n", "P": clilib.lua_unparseable(5).encode(), "F-empty": b""}
+    want = {"F": 0, "U": 1, "U-blank": 1, "P": 2, "F-empty": 0}
+    for cls, data in texts.items():
+        for fmt in FORMATS + [None]:
+            for fp in (False, True):
+                args = ["--check"] + (["--output-format", fmt] if fmt else []) + (["--stdin-filepath", "src/x.lua"] if fp else []) + ["-"]
+                with clilib.Scratch(prefix="sv-c13-stdin-") as sc:
+                    sc.write("src/keep.lua", b"local   untouched = 1\n")
+                    before = clilib.snapshot(sc.root)
+                    run = clilib.run_cli(args, sc.root, sc.env({}), stdin=data)
+                    after = clilib.snapshot(sc.root)
+                if run.timed_out:
+                    tally.inconclusive += 1
+                    continue
+                tally.evaluations += 1
+                tally.counters["stdin." + cls] = tally.counters.get("stdin." + cls, 0) + 1
+                case = {"stdin_case": {"class": cls, "args": args, "input": data.decode("utf-8", "replace")}}
+                if run.rc != want[cls]:
+                    sig_ = f"C13:stdin:exit:got={run.rc}:expected={want[cls]}:{cls}"
+                    tally.per_signature[sig_] = tally.per_signature.get(sig_, 0) + 1
+                    if sum(1 for x in tally.findings if x["signature"] == sig_) < 2:
+                        tally.findings.append({"oracle": "exit-status", "signature": sig_, "detail": f"stylua {' '.join(args)} on a class-{cls} text exits {run.rc}; stderr: {run.err[:200]!r}", "case": case})
+                if clilib.snapshot_diff(before, after, ignore_dir_mtime=True):
+                    sig_ = "C13:stdin:tree-changed"
+                    tally.per_signature[sig_] = tally.per_signature.get(sig_, 0) + 1
+                    tally.findings.append({"oracle": "fs-snapshot", "signature": sig_, "detail": f"stylua {' '.join(args)} changed the tree", "case": case})
+
+
 def run(tier, seed):
     lf = clilib.LibFmt()
     try:
@@ -525,6 +558,7 @@ def run(tier, seed):
             cases.append(random_case(rng, lf, tier, check=True))
         tally = Tally(PROP, lf, judge, exec13)
         ftree.run_all(cases, exec13, tally.on_result)
+        stdin_leg(lf, tally)
         return tally.result(len(cases))
     finally:
         lf.close()
@@ -533,6 +567,13 @@ def run(tier, seed):
 def replay(case):
     lf = clilib.LibFmt()
     try:
+        if "stdin_case" in case:
+            sc_ = case["stdin_case"]
+            with clilib.Scratch(prefix="sv-c13-stdin-") as sc:
+                run = clilib.run_cli(sc_["args"], sc.root, sc.env({}), stdin=sc_["input"].encode())
+            print(json.dumps({"exit": run.rc, "stdout": run.out.decode("utf-8", "replace")[:500], "stderr": run.err.decode("utf-8", "replace")[:500]}))
+            want = {"F": 0, "U": 1, "U-blank": 1, "P": 2, "F-empty": 0}[sc_["class"]]
+            return [] if run.rc == want else [{"oracle": "exit-status", "signature": f"C13:stdin:exit:got={run.rc}:expected={want}:{sc_['class']}", "detail": "replayed"}]
         obs = exec13(case)
         if obs.get("skipped") or obs["timed_out"] or obs["rc"] is None:
             print("inconclusive: " + str(obs.get("skipped") or "timeout"))
